@@ -38,6 +38,12 @@ func VP_T00_reflect_struct() {
 	pv := reflect.ValueOf(&x).Elem()
 	vv := reflect.ValueOf(x)
 	vp.Observe("numfield", pv.NumField())
+	var u16 uint16
+	var i8 int8
+	for _, k := range []int64{0, 127, 128, -128, -129, 65535, 65536, -1, -32768} {
+		vp.Observe("overflow.uint16", reflect.ValueOf(u16).OverflowUint(uint64(k)))
+		vp.Observe("overflow.int8", reflect.ValueOf(i8).OverflowInt(k))
+	}
 	for i := 0; i < pv.NumField(); i++ {
 		vpObsKind("p.field", pv.Field(i))
 		vpObsKind("v.field", vv.Field(i))
